@@ -94,6 +94,7 @@ pub fn spec() -> PropSpec {
                 (gen::msg_seq(cfg), gen::partition()).prop_map(|(seq, partition)| Case { seq, partition }).boxed()
             }, 150_000, 3_000_000, eval),
             PropCheck::new("roundtrip-kilobyte-chunks", |_| (gen::msg_seq_large(6), gen::partition_large()).prop_map(|(seq, partition)| Case { seq, partition }).boxed(), 6_000, 200_000, eval),
+            PropCheck::new("many-message-streams", |_| (gen::msg_seq_many_msids(), gen::partition()).prop_map(|(seq, partition)| Case { seq, partition }).boxed(), 600, 20_000, eval),
             EnumCheck::new("large", false, large_cases, eval),
             crate::targets::corpus_check(&["chunk_roundtrip"]),
         ],
